@@ -33,7 +33,8 @@ CLAIMS = {
            "(fifo_exactly_once_clean, fifo_exactly_once_async_clean), async_start_settles_before_loop, "
            "mutual_exclusion_atomic. Findings F10 F30 F42 are fixed in the library; the unlocked re-entrancy flag "
            "(mutual_exclusion_fails / flag_protocol_can_strand_an_event) is exhibited in the statement-granularity "
-           "model only",
+           "model only; the monitor follows raised events across calls that ended in an escaping failure. F70 (bound per "
+           "busy period, not per causal chain) open",
     "C12": "theorems: restore_snap / restored_hist / restore_snap_equiv / snap_restore_snap / repeated_cycles (round "
            "trip), restore_rejects_nonobject / _unknown_state / _shape_* (corrupt snapshots give library errors), "
            "recorded_lists_sorted (unconditional: remembered lists of every reached state are in (depth, id) order), "
@@ -52,7 +53,12 @@ CLAIMS = {
            "status_edges(_run) (only the documented status edges), stop_idempotent, stop_from_any_status, "
            "start_after_stop_raises, start_idempotent_running, start_noop_when_finished, start_resumes_restored, "
            "send_noop_unless_running, async_presend_processed_at_start, nothing_processed_after_stop(_restores) "
-           "(28); every generated call sequence is run on both real engines and on the model driver",
+           "(30); every generated call sequence is run on both real engines and on the model driver; descendants: "
+           "actor worlds (spawnChild / spawn_ / invoke trees, children that finish by themselves while they own live "
+           "descendants) ended by stop() of the root, tied to the Lean actor model (parent_stop_stops_subtree, "
+           "nothing_delivered_after_stop in Properties/C15), judged from the first stop() on; stop() inside a macrostep and "
+           "stop() while a service teardown raises are directed checks. Findings F72-F74 fixed in the library; F52-C14 "
+           "(sync: a child stopChild-ed before its watcher thread started it survives the parent's stop()) open with F52",
     "C08": "theorems over the timer model: an `after` timer is armed on entry and cancelled on exit, a cancelled "
            "timer never fires, timers fire in (deadline, arming order) order, re-entry re-arms; virtual-clock "
            "correspondence on the async engine and thread-shim correspondence on the sync engine",
